@@ -95,9 +95,9 @@ except ImportError:  # no cython
         for word, count in counts.items():
             cond_counts[word[:hLength]][word[hLength:]] += count
 
-        histories = sorted(counts.keys())
+        histories = sorted(cond_counts.keys())
         alphabet = set(alphabet) if alphabet is not None else set()
-        alphabet = tuple(sorted(alphabet.union(*[set(hist) for hist in histories])))
+        alphabet = tuple(sorted(alphabet.union(*[set(word) for word in counts])))
 
         cCounts = np.empty((len(histories), len(alphabet)**fLength))
         for i, hist in enumerate(histories):
